@@ -156,10 +156,11 @@ def event_for_case(samples, cid, nc, ids, variant):
                               for b in range(3)] for a in range(2)]
                     if all(np.asarray(dd[c]).shape == (2, 3) for c in st2.classes) else []}
         # the same matrix stored in narrow integer dtypes (every entry fits, the trace does not)
-        e["acc_narrow"] = [gamma.proj_rat(ConfusionMatrix(matrix=(np.asarray(M * ws, dtype=np.int64) * 30).astype(np.uint8),
-                                                          classes=list(cm.classes)).accuracy(), 1000),
-                           gamma.proj_rat(ConfusionMatrix(matrix=(np.asarray(M * ws, dtype=np.int64) * 4000).astype(np.int16),
-                                                          classes=list(cm.classes)).accuracy(), 1000)]
+        Mi = np.asarray(np.round(M * ws), dtype=np.int64)
+        mx = max(1, int(Mi.max()))
+        e["acc_narrow"] = [gamma.proj_rat(ConfusionMatrix(matrix=(Mi * (lim // mx)).astype(dt),
+                                                          classes=list(cm.classes)).accuracy(), 1000)
+                           for dt, lim in ((np.uint8, 255), (np.int16, 32767))]
         ci = np.asarray(cm.tpr_ci(alpha=0.1))
         ok = ok and ci.shape == (n, 2)
         e["accuracy"] = gamma.proj_rat(cm.accuracy(), 1000)
